@@ -168,7 +168,9 @@ def run_driver(impl_results, order, args=None, timeout=600):
     for c in order:
         text.append('CASE ' + c)
         text.extend(impl_results.get(c, []))
-    rc, out, err, dt = sh([os.path.join(ROOT, 'ocaml', 'driver')] + (args or []), timeout=timeout, inp='\n'.join(text) + '\n')
+    # the extracted functions recurse on unary nat and on lists (not always in tail position): give the driver a large stack
+    cmd = ['bash', '-c', 'ulimit -s 4000000 2>/dev/null || ulimit -s unlimited 2>/dev/null; exec "$@"', 'bash', os.path.join(ROOT, 'ocaml', 'driver')] + (args or [])
+    rc, out, err, dt = sh(cmd, timeout=timeout, inp='\n'.join(text) + '\n')
     blocks, _ = parse_blocks(out)
     return blocks, rc, err[-1000:]
 
@@ -306,6 +308,19 @@ def shrink_ops(case, fails_batch, max_rounds=40):
         if nxt is None: break
         lists = nxt
     return mk(lists)
+
+
+def source_fingerprints():
+    """what tree was checked: HEAD of /repo, whether include/ differs from it, and a hash per header"""
+    fp = {}
+    inc = os.path.join(REPO, 'include')
+    for root, _, files in os.walk(inc):
+        for fn in sorted(files):
+            pth = os.path.join(root, fn)
+            fp[os.path.relpath(pth, REPO)] = hashlib.sha256(open(pth, 'rb').read()).hexdigest()[:16]
+    rc, head, _, _ = sh(['git', '-C', REPO, 'rev-parse', '--short', 'HEAD'], timeout=30)
+    rc2, st, _, _ = sh(['git', '-C', REPO, 'status', '--short', '--', 'include'], timeout=30)
+    return {'repo_head': head.strip(), 'include_modified_files': [l.strip() for l in st.split('\n') if l.strip()], 'sha256_16': fp}
 
 
 # ---------------------------------------------------------------- verdicts, evidence
